@@ -102,6 +102,10 @@ fn malformed_first(rng: &mut Rng, ctype: u8) -> Vec<u8> {
 
 /// malformed message that may follow k>=1 good ones
 fn malformed_tail(rng: &mut Rng, ctype: u8) -> Vec<u8> {
+    if ctype == 22 && rng.chance(1, 2) {
+        // any constructively malformed handshake message may also follow good ones
+        return malformed_first(rng, 22);
+    }
     match ctype {
         20 => vec![*rng.pick(&[0u8, 2, 0xff])],
         21 => vec![rng.u8()],
@@ -169,6 +173,7 @@ fn gen_record(rng: &mut Rng, s: &mut Scenario, next_id: &mut u8, batch: u64, bud
                     break;
                 }
                 let m = gen::any_handshake(rng, b);
+                let m = gen::sslv3_trailing(rng, m);
                 if !add(s, next_id, m, &mut ids, &mut total) {
                     break;
                 }
@@ -285,6 +290,16 @@ pub fn generate(rng: &mut Rng, prop: Prop) -> Scenario {
             s.push(Item::new("rec").int("type", t as u64).int("ver", gen::version(rng) as u64).bytes("data", &data).str("x", "none"));
         }
     }
+    // bulk: more than 64 KiB in flight behind the record at the head of the buffer
+    let bulk = big && rng.chance(1, 4);
+    if bulk {
+        for _ in 0..rng.urange(5, 9) {
+            let n = *rng.pick(&[16640usize, 16384, 16000, 12000]);
+            let t = *rng.pick(&[23u8, 23, 22, 24, 0x30]);
+            let data = vec![rng.u8(); n];
+            s.push(Item::new("rec").int("type", t as u64).int("ver", gen::version(rng) as u64).bytes("data", &data).str("x", "none"));
+        }
+    }
     let nrec = if big { rng.urange(1, 3) } else if many_small { rng.urange(0, 2) } else { rng.urange(1, 10) };
     for _ in 0..nrec {
         if batch >= 2 && rng.chance(2, 3) {
@@ -324,7 +339,7 @@ pub fn generate(rng: &mut Rng, prop: Prop) -> Scenario {
         }
     }
     // delivery schedule
-    let mode = if many_small { *rng.pick(&[2u64, 3, 3, 4]) } else if total > 3000 { *rng.pick(&[1u64, 2, 3, 4, 5, 5]) } else { rng.below(6) };
+    let mode = if bulk { *rng.pick(&[3u64, 3, 2, 4]) } else if many_small { *rng.pick(&[2u64, 3, 3, 4]) } else if total > 3000 { *rng.pick(&[1u64, 2, 3, 4, 5, 5]) } else { rng.below(6) };
     let mut left = total + 8; // corruption may lengthen the stream slightly
     let mut segs: Vec<usize> = Vec::new();
     match mode {
@@ -801,6 +816,9 @@ pub fn execute(scn: &Scenario, ctx: &mut Ctx) {
     }
     if layout.len() > 10 {
         ctx.fault("many-small-records");
+    }
+    if stream.len() > 70_000 {
+        ctx.fault("bulk-inflight-64k");
     }
     for r in &layout {
         if r.lied {
